@@ -159,17 +159,17 @@ theorem nested_frames_are_entry_points (env : Env) (depth : Nat) (ro : Bool) (se
       run env depth ro self w clogs tr (.call id kind target value body rest) =
         let r := callFrame env depth ro self kind target value body w
         run env depth ro self r.world (clogs ++ r.logs)
-          (tr ++ r.trace ++ [{ id := id, ok := r.ok, world := r.world }]) rest)
+          (tr ++ r.trace ++ [{ id := id, ok := r.ok, world := r.world, err := r.err }]) rest)
     ∧ (∀ two salt value init, roBlocked ro (if two then Op.create2 else Op.create) value = false →
       run env depth ro self w clogs tr (.create id two salt value init rest) =
         let r := createFrame env depth ro self two salt value init w
         run env depth ro self r.world (clogs ++ r.logs)
-          (tr ++ r.trace ++ [{ id := id, ok := r.ok, world := r.world }]) rest)
+          (tr ++ r.trace ++ [{ id := id, ok := r.ok, world := r.world, err := r.err }]) rest)
     ∧ (∀ au n target value body, roBlocked ro Op.authcall value = false →
       run env depth ro self w clogs tr (.authcall id au n target value body rest) =
         let r := authFrame env depth ro au n target value body (w.addAccess target)
         run env depth ro self r.world (clogs ++ r.logs)
-          (tr ++ r.trace ++ [{ id := id, ok := r.ok, world := r.world }]) rest) := by
+          (tr ++ r.trace ++ [{ id := id, ok := r.ok, world := r.world, err := r.err }]) rest) := by
   refine ⟨?_, ?_, ?_⟩
   · intro kind target value body h
     rw [run]; simp only [h, Bool.false_eq_true, ↓reduceIte]; rfl
